@@ -1309,7 +1309,7 @@ def generate(ctx):
     specs = corpus()
     # the property's grid: every limit pair in [-12, 12] in both orders x even_odd
     grid = [(a, b, eo) for a in range(-12, 13) for b in range(-12, 13) for eo in (0, 1, 2)]
-    reps = 1 if tier == 'quick' else 3
+    reps = 1 if tier == 'quick' else 2
     pool = make_pool(rng, 60 if tier == 'quick' else 400)
     for rep in range(reps):
         for (a, b, eo) in grid:
@@ -1415,6 +1415,8 @@ def run(ctx):
             res.samples.append({'answers': spec['cfg']['answers'], 'even_odd': spec['cfg'].get('even_odd', 0),
                                 'inputs': spec['inputs'], 'transformation': spec['meta']['label'], 'implementation': o['result'],
                                 'model': 'same outcome, sums and evaluation points (checked in Coq)'})
+    # witnesses that do not belong to an already characterised call site / trigger come first (the driver prints five)
+    res.witnesses.sort(key=lambda w: 1 if w.get('site') else 0)
     dist['transformations'] = dict(sorted(labels.items(), key=lambda kv: -kv[1])[:12])
     dist['error_classes'] = errkinds
     res.distribution = dist
